@@ -23,12 +23,12 @@ theorem inv_glk (n : Nat) (sh : Sh) (pcs : Nat → Pc) (t : Nat) (e : Env) (o : 
     cases hr : reader o
     · simp only [acquired, hr, Bool.false_eq_true, if_false, Option.some.injEq, Prod.mk.injEq] at hts
       obtain ⟨rfl, rfl⟩ := hts
-      refine ⟨gate_step n sh _ pcs t _ (menv e) hlt hgI (by rw [hgp, hm, hheld]; simp [gpc, hr]) rfl rfl,
+      refine ⟨gate_step n sh _ pcs t _ (menvG e) hlt hgI (by rw [hgp, hm, hheld]; simp [gpc, hr]) rfl rfl,
         rl_same n sh _ pcs t _ hlt hrI rfl (by rw [hrp]; simp [rpc, hr]), ?_, hgrp, hwg⟩
       have := hC (.psn o); simp [cntR, hr] at this; simp only []; omega
     · simp only [acquired, hr, Bool.false_and, Bool.false_eq_true, if_false, if_true, Option.some.injEq, Prod.mk.injEq] at hts
       obtain ⟨rfl, rfl⟩ := hts
-      have hacq := gate_acq_grp n sh { sh with g := g', r := sh.r + 1, grp := true } pcs t (.psn o) (menv e) hlt hgI
+      have hacq := gate_acq_grp n sh { sh with g := g', r := sh.r + 1, grp := true } pcs t (.psn o) (menvG e) hlt hgI
         (by rw [hgp, hm, hheld]) (by simp [gpc, hr]) rfl rfl
       have := hC (.psn o); simp [cntR, hr] at this
       refine ⟨hacq.1, rl_same n sh _ pcs t _ hlt hrI rfl (by rw [hrp]; simp [rpc, hr]), ?_, ?_, hwg⟩
@@ -40,7 +40,7 @@ theorem inv_glk (n : Nat) (sh : Sh) (pcs : Nat → Pc) (t : Nat) (e : Env) (o : 
   split at hts
   next hidle =>
     -- try_lock lost (WouldBlock) / lock() was cancelled
-    have hg := fun pc'' (hq : gpc pc'' = .idle) => gate_step n sh { sh with g := g' } pcs t pc'' (menv e) hlt hgI (by rw [hgp, hm, hidle, hq]) rfl rfl
+    have hg := fun pc'' (hq : gpc pc'' = .idle) => gate_step n sh { sh with g := g' } pcs t pc'' (menvG e) hlt hgI (by rw [hgp, hm, hidle, hq]) rfl rfl
     cases o <;> simp only [notAcquired, Option.some.injEq, Prod.mk.injEq] at hts <;> obtain ⟨rfl, rfl⟩ := hts
     case read =>
       refine ⟨hg _ rfl, rl_step n sh _ pcs t _ .unlock hlt hrI (by rw [hrp]; rfl), ?_, hgrp, hwg⟩
@@ -49,12 +49,12 @@ theorem inv_glk (n : Nat) (sh : Sh) (pcs : Nat → Pc) (t : Nat) (e : Env) (o : 
       refine ⟨hg _ rfl, rl_step n sh _ pcs t _ .unlock hlt hrI (by rw [hrp]; rfl), ?_, hgrp, hwg⟩
       have := hC (.rul .tryRead 0 (.p0fadd .fin)); simp [cntR] at this; simp only []; omega
     all_goals
-      refine ⟨gate_step n sh _ pcs t .idle (menv e) hlt hgI (by rw [hgp, hm, hidle]; rfl) rfl rfl,
+      refine ⟨gate_step n sh _ pcs t .idle (menvG e) hlt hgI (by rw [hgp, hm, hidle]; rfl) rfl rfl,
         rl_same n sh _ pcs t _ hlt hrI rfl (by rw [hrp]; rfl), ?_, hgrp, hwg⟩
       have := hC .idle; simp [cntR] at this; simp only []; omega
   next hni =>
     simp only [Option.some.injEq, Prod.mk.injEq] at hts; obtain ⟨rfl, rfl⟩ := hts
-    refine ⟨gate_step n sh _ pcs t _ (menv e) hlt hgI (by rw [hgp, hm]; rfl) rfl rfl,
+    refine ⟨gate_step n sh _ pcs t _ (menvG e) hlt hgI (by rw [hgp, hm]; rfl) rfl rfl,
       rl_same n sh _ pcs t _ hlt hrI rfl (by rw [hrp]; rfl), ?_, hgrp, hwg⟩
     have := hC (.glk o p'); simp [cntR] at this; simp only []; omega
 
